@@ -13,6 +13,7 @@ import (
 	"bytes"
 	"context"
 	"crypto/aes"
+	"crypto/cipher"
 	"crypto/sha256"
 	"encoding/binary"
 	"encoding/json"
@@ -64,6 +65,20 @@ func refCTR(key, iv []byte, offset int64, data []byte) []byte {
 			}
 		}
 	}
+	return out
+}
+
+// fastCTR is refCTR on crypto/cipher's CTR mode with the spec-derived counter block; the mock CDN uses it for
+// megabyte-sized answers. main() checks it against refCTR once.
+func fastCTR(key, iv []byte, offset int64, data []byte) []byte {
+	blk, err := aes.NewCipher(key)
+	if err != nil {
+		panic(err)
+	}
+	ctr := append([]byte(nil), iv...)
+	binary.BigEndian.PutUint32(ctr[12:], uint32(offset/16))
+	out := make([]byte, len(data))
+	cipher.NewCTR(blk, ctr).XORKeyStream(out, data)
 	return out
 }
 
@@ -151,7 +166,7 @@ type wDL struct {
 	Window      int    `json:"hash_window"`
 	Irregular   bool   `json:"irregular_windows,omitempty"` // window sizes cycle W,2W,W,3W
 	LastNominal bool   `json:"last_window_nominal_limit,omitempty"`
-	Event       string `json:"event,omitempty"`        // token | reupload | late-redirect | fallback | fingerprint
+	Event       string `json:"event,omitempty"`        // token | token-req | fallback | fallback-file | reupload | late-redirect | fingerprint
 	EventOffset int64  `json:"event_offset,omitempty"` // data request offset that triggers the event
 	Fault       string `json:"fault,omitempty"`        // adversarial action on one data answer
 	FaultOffset int64  `json:"fault_offset,omitempty"` // request offset whose answer is altered
@@ -171,6 +186,7 @@ type server struct {
 	tokenVer int
 	occ      map[int64]int
 	reqLog   [][2]int64 // data requests (offset, limit) in arrival order
+	mstLog   [][2]int64 // ranges served by the master DC itself in a CDN scenario
 	faultHit string     // "", "applied", "n/a"
 	eventHit bool
 	fallback bool
@@ -351,6 +367,9 @@ func (s *server) UploadGetFile(_ context.Context, r *tg.UploadGetFileRequest) (t
 			return red, nil
 		}
 		// the master DC serves this range itself (trusted, never tampered)
+		s.mu.Lock()
+		s.mstLog = append(s.mstLog, [2]int64{r.Offset, int64(r.Limit)})
+		s.mu.Unlock()
 		return &tg.UploadFile{Type: &tg.StorageFilePng{}, Bytes: s.plain(r.Offset, r.Limit)}, nil
 	}
 	if s.w.Mode != "master-verified" {
@@ -413,19 +432,25 @@ func (c cdnDC) UploadGetCDNFile(_ context.Context, r *tg.UploadGetCDNFileRequest
 	if ver != cur {
 		return nil, tgerr.New(400, "FILE_TOKEN_INVALID")
 	}
-	enc := func(at int64, plain []byte) []byte { return refCTR(keyOf(ver), ivOf(ver), at, plain) }
+	enc := func(at int64, plain []byte) []byte { return fastCTR(keyOf(ver), ivOf(ver), at, plain) }
 	data, ev := s.dataAnswer(r.Offset, r.Limit, enc)
 	switch ev {
-	case "token":
+	case "token", "token-req":
 		s.mu.Lock()
 		s.tokenVer++ // new token, new key and iv
 		s.mu.Unlock()
+		if ev == "token-req" {
+			return nil, tgerr.New(400, "REQUEST_TOKEN_INVALID")
+		}
 		return nil, tgerr.New(400, "FILE_TOKEN_INVALID")
-	case "fallback":
+	case "fallback", "fallback-file":
 		s.mu.Lock()
 		s.tokenVer++
 		s.fallback = true // the master stops redirecting and serves the file itself
 		s.mu.Unlock()
+		if ev == "fallback-file" {
+			return nil, tgerr.New(400, "FILE_TOKEN_INVALID")
+		}
 		return nil, tgerr.New(400, "REQUEST_TOKEN_INVALID")
 	case "reupload":
 		return &tg.UploadCDNFileReuploadNeeded{RequestToken: []byte("c34-request-token")}, nil
@@ -534,6 +559,17 @@ func evalDownload(w wDL) kit.Result {
 	// class = mode + kind of adversarial answer that got through (stable under goroutine scheduling; what exactly
 	// was delivered — truncated / extended / corrupted — can depend on it in parallel mode and is in the message)
 	group := "honest-run-wrong-bytes"
+	if w.Event != "" && s.eventHit {
+		// no adversarial answer took effect: the protocol event alone (token invalidation and the master's reaction,
+		// reupload, ...) made the download deliver wrong bytes
+		group = w.Event + "-recovery-wrong-bytes"
+	}
+	if group != "honest-run-wrong-bytes" && fk == "honest" {
+		return kit.Bad(w.Mode+":"+group,
+			"protocol event %q raised by the CDN on the data request at offset %d, no adversarial answer: download reported success but delivered a %s file: "+
+				"output %d bytes, genuine file %d bytes, first difference at byte %d; CDN data requests (offset,limit): %v; ranges served by the master: %v",
+			w.Event, w.EventOffset, what, len(got), len(want), first, clipReqs(s.reqLog), clipReqs(s.mstLog))
+	}
 	switch {
 	case strings.HasPrefix(fk, "flip-"):
 		group = "bit-flip-accepted"
@@ -592,8 +628,10 @@ func main() {
 			"4 KiB aligned, divides 1 MiB and stays inside one MiB. family decrypt: (*cdn).decrypt vs a reference AES-256-CTR (IV tail = offset/16 BE) for " +
 			"offsets up to 4 GiB x lengths {1,15,16,17,4096,4097} x IV patterns {zero,ff,stream}. family download: modes {CDN with inline verification, CDN with " +
 			"WithVerify(true), master with WithVerify(true)} x sinks {stream, parallel 1, parallel 3 threads} x (part size, hash window) in " +
-			"{(8K,4K),(4K,8K),(8K,8K),(12K,8K),(16K,4K irregular); thorough also (512K,128K),(64K,128K) with sizes {ps+100,3ps+4196}} x sizes {0,100,ps,ps+100,3ps,3ps+4196,6ps+100} x last-window limit {actual, nominal} x protocol event " +
-			"{none; thorough: token refresh with new key, reupload-needed, late redirect, master fallback, fingerprint miss} x (one adversarial action from " +
+			"{(8K,4K),(4K,8K),(8K,8K),(12K,8K),(24K,8K),(16K,4K irregular); thorough also (512K,128K),(64K,128K) with sizes {ps+100,3ps+4196}} x sizes {0,100,ps,ps+100,3ps,3ps+4196,6ps+100} x last-window limit {actual, nominal} x protocol event " +
+			"{none; without adversarial action: FILE_TOKEN_INVALID / REQUEST_TOKEN_INVALID on every CDN data request (every sub-request of every chunk's plan) x master reaction " +
+			"{new redirect with new key, master serves the file itself}, also for part sizes 384 KiB and 768 KiB with 128 KiB windows (multi-request plans, chunks crossing 1 MiB; " +
+			"file 3 parts+12345, thorough also 1 and 5 parts); thorough with adversarial actions: token refresh with new key, reupload-needed, late redirect, master fallback, fingerprint miss} x (one adversarial action from " +
 			"{bit flip first/mid/last, truncate by 1/16/to 4 KiB/to a hash-window boundary/to 0, extend by 1/16 garbage bytes/by 4 KiB of genuine data, answer with another " +
 			"chunk's plaintext / ciphertext} on the k-th answer to each data request offset seen in the honest run). distinct = distinct witnesses; runs in which " +
 			"the action could not be applied count as trivial. Oracle: if the download reports success, the output equals the genuine file byte for byte " +
@@ -602,6 +640,13 @@ func main() {
 			"are adversarial; one adversarial action per download; reference AES-CTR written from core.telegram.org/cdn on crypto/aes; errors are always acceptable " +
 			"outcomes for this property (liveness under honest servers belongs to C33)")
 
+		for _, off := range []int64{0, 4096, mib - 4096, 4096*mib - 4096} {
+			d := reffiles.Bytes(seed, off, 70000)
+			if !bytes.Equal(fastCTR(keyOf(1), kit.Pattern("ff", 16), off, d), refCTR(keyOf(1), kit.Pattern("ff", 16), off, d)) {
+				fmt.Fprintln(os.Stderr, "C34: infrastructure error: the mock's CTR differs from the reference CTR")
+				os.Exit(2)
+			}
+		}
 		// plan grid
 		for off := int64(0); off < 2*mib; off += 4096 {
 			for lim := 4096; lim <= 2*mib; lim += 4096 {
@@ -631,8 +676,13 @@ func main() {
 		type geo struct {
 			ps, win int
 			irr     bool
+			// eventsOnly: large geometry used for the token-invalidation events only (no adversarial answers)
+			eventsOnly bool
 		}
-		geos := []geo{{8 * kib, 4 * kib, false}, {4 * kib, 8 * kib, false}, {8 * kib, 8 * kib, false}, {12 * kib, 8 * kib, false}, {16 * kib, 4 * kib, true}}
+		geos := []geo{{8 * kib, 4 * kib, false, false}, {4 * kib, 8 * kib, false, false}, {8 * kib, 8 * kib, false, false}, {12 * kib, 8 * kib, false, false},
+			{16 * kib, 4 * kib, true, false}, {24 * kib, 8 * kib, false, false},
+			// part sizes that do not divide 1 MiB: every chunk is several CDN requests, some chunks cross a 1 MiB boundary
+			{384 * kib, 128 * kib, false, true}, {768 * kib, 128 * kib, false, true}}
 		type sk struct {
 			sink string
 			th   int
@@ -642,7 +692,7 @@ func main() {
 		if c.Thorough() {
 			events = append(events, "token", "reupload", "late-redirect", "fallback", "fingerprint")
 			// production-like geometry: 128 KiB hash windows with the default 512 KiB parts and with 64 KiB parts
-			geos = append(geos, geo{512 * kib, 128 * kib, false}, geo{64 * kib, 128 * kib, false})
+			geos = append(geos, geo{512 * kib, 128 * kib, false, false}, geo{64 * kib, 128 * kib, false, false})
 		}
 		var ws []wDL
 		for _, mode := range []string{"cdn-inline", "cdn-verified", "master-verified"} {
@@ -652,10 +702,22 @@ func main() {
 				if g.ps >= 64*kib {
 					sizes = []int64{p + 100, 3*p + 4196}
 				}
+				if g.eventsOnly {
+					sizes = []int64{3*p + 12345}
+					if c.Thorough() {
+						sizes = []int64{p + 100, 3*p + 12345, 5*p + 12345}
+					}
+					if mode == "master-verified" {
+						continue
+					}
+				}
 				for _, size := range sizes {
 					for _, nominal := range []bool{false, true} {
+						if g.eventsOnly && c.Quick() && !nominal {
+							continue // quick: the megabyte-sized geometries only with nominal last-window limits
+						}
 						for _, ev := range events {
-							if ev != "" && mode == "master-verified" {
+							if ev != "" && (mode == "master-verified" || g.eventsOnly) {
 								continue
 							}
 							evOff := int64(0)
@@ -679,10 +741,26 @@ func main() {
 								occ[r[0]]++
 							}
 							sort.Slice(offs, func(i, j int) bool { return offs[i] < offs[j] })
+							if ev == "" && mode != "master-verified" {
+								// token invalidation on every CDN data request (i.e. every sub-request of every chunk's
+								// plan) x both error names x both reactions of the master (new redirect / serves the file itself)
+								for _, tev := range []string{"token", "token-req", "fallback", "fallback-file"} {
+									for _, off := range offs {
+										for _, s := range sinks {
+											w := base
+											w.Sink, w.Threads, w.Event, w.EventOffset = s.sink, s.th, tev, off
+											ws = append(ws, w)
+										}
+									}
+								}
+							}
 							for _, s := range sinks {
 								w := base
 								w.Sink, w.Threads = s.sink, s.th
 								ws = append(ws, w)
+								if g.eventsOnly {
+									continue
+								}
 								for _, off := range offs {
 									maxOcc := occ[off]
 									if maxOcc > 2 {
